@@ -11,7 +11,9 @@ import DaskModel.Model.GetScheduler
 import DaskModel.Model.FusedKey
 import DaskModel.Model.PickleLoop
 import DaskModel.Model.DelayedUnpack
+import DaskModel.Model.DelayedOps
 import DaskModel.Generated.FusedKeyRenamer
+import DaskModel.Model.CtorNamesIO
 open Dask
 open Dask.NF
 open Dask.TaskNode
@@ -522,9 +524,128 @@ def hGetScheduler : Handler := handler fun args =>
     pure (encRes r)
   | _ => none
 
+/-! ### C15 extension: operators, item / attribute access, method calls (Model/DelayedOps.lean) -/
+
+mutual
+/-- `(leaf nm v)` `(call nm pure f (arg…))` `(binop nm o prog arg)` `(rbinop nm o arg prog)` `(unop nm o prog)`
+    `(getitem nm prog arg)` `(getattr nm prog attr)` `(method nm pure prog m (arg…))`;
+    arg: `(lit v) (sub prog) (list arg…) (tuple arg…) (dict (k v)…)` -/
+partial def decX : SExp → Option DelayedOps.X
+  | .list [.sym "leaf", nm, v] => do pure (.leaf (← nm.toNat?) (← v.toNat?))
+  | .list [.sym "call", nm, p, f, .list args] => do pure (.call (← nm.toNat?) (← p.toBool?) (← f.toNat?) (← args.mapM decXA))
+  | .list [.sym "binop", nm, o, l, r] => do pure (.binop (← nm.toNat?) (← o.toNat?) (← decX l) (← decXA r))
+  | .list [.sym "rbinop", nm, o, l, r] => do pure (.rbinop (← nm.toNat?) (← o.toNat?) (← decXA l) (← decX r))
+  | .list [.sym "unop", nm, o, x] => do pure (.unop (← nm.toNat?) (← o.toNat?) (← decX x))
+  | .list [.sym "getitem", nm, x, i] => do pure (.getitem (← nm.toNat?) (← decX x) (← decXA i))
+  | .list [.sym "getattr", nm, x, a] => do pure (.getattr (← nm.toNat?) (← decX x) (← a.toNat?))
+  | .list [.sym "method", nm, p, x, m, .list args] => do
+    pure (.method (← nm.toNat?) (← p.toBool?) (← decX x) (← m.toNat?) (← args.mapM decXA))
+  | _ => none
+partial def decXA : SExp → Option DelayedOps.XA
+  | .list [.sym "lit", v] => do pure (.lit (← v.toNat?))
+  | .list [.sym "sub", e] => do pure (.sub (← decX e))
+  | .list (.sym "list" :: xs) => do pure (.list (← xs.mapM decXA))
+  | .list (.sym "tuple" :: xs) => do pure (.tuple (← xs.mapM decXA))
+  | .list (.sym "dict" :: kvs) => do
+    pure (.dict (← kvs.mapM (fun e => match e with
+      | .list [k, v] => do pure ((← decXA k), (← decXA v))
+      | _ => none)))
+  | _ => none
+end
+
+/-- the symbolic value algebra shared with the harness (`SymV` of harness/props/_c15x_ops.py) -/
+def codeSemX : DelayedOps.XSem Nat where
+  lit := id
+  app := combine
+  -- `a > b` is `b < a`, `a >= b` is `b <= a` (operators 15, 16 / 13, 14 of the harness): the value algebra satisfies the
+  -- mirror law Python relies on when it dispatches a comparison to the reflected method of the right operand
+  binop := fun o a b => if o = 15 ∨ o = 16 then combine (2000 + o - 2) [b, a] else combine (2000 + o) [a, b]
+  unop := fun o a => combine (2100 + o) [a]
+  getitem := fun a i => combine 3001 [a, i]
+  getattr := fun a n => combine 3002 [a, n]
+  method := fun m a vs => combine (4000 + m) (a :: vs)
+  mkList := combine 1001
+  mkTuple := combine 1002
+  mkDict := fun kvs => combine 1003 (kvs.flatMap (fun p => [p.1, p.2]))
+
+def encCallable : DelayedOps.Callable → SExp
+  | .fn f => .list [.sym "fn", .int f]
+  | .binop o => .list [.sym "binop", .int o]
+  | .rbinop o => .list [.sym "rbinop", .int o]
+  | .unop o => .list [.sym "unop", .int o]
+  | .getitem => .list [.sym "getitem"]
+  | .getattr => .list [.sym "getattr"]
+  | .method m => .list [.sym "method", .int m]
+
+mutual
+partial def encSK : DelayedOps.SK → SExp
+  | .given n => .list [.sym "given", .int n]
+  | .pure c args => .list (.sym "pure" :: encCallable c :: args.map encSA)
+partial def encSA : DelayedOps.SA → SExp
+  | .lit v => .list [.sym "lit", .int v]
+  | .key k => .list [.sym "key", encSK k]
+  | .list xs => .list (.sym "list" :: xs.map encSA)
+  | .tuple xs => .list (.sym "tuple" :: xs.map encSA)
+  | .dict kvs => .list (.sym "dict" :: kvs.map (fun p => .list [encSA p.1, encSA p.2]))
+end
+
+/-- `(opsrun prog fuel)` ↦ `(eager graphvalue ((key (dep…))…) ((key legacy callable (arg…) (dep…))…) ((key skey)…))`:
+    value of the program run eagerly, value of its key in the graph the model assembles, the dependencies of every key
+    of that graph, the task (`shapeOf`) of every operation, and the symbolic key of every Delayed value of the program -/
+def hOpsRun : Handler := handler fun args =>
+  match args with
+  | [p, fuel] => do
+    let e ← decX p
+    let fuel ← fuel.toNat?
+    let g := DelayedOps.graphOfX codeSemX e
+    let subs := DelayedOps.subX e
+    let names := (subs.map DelayedOps.X.nm).eraseDups
+    let entries := names.filterMap (fun k => (g k).map (fun t => SExp.list [.int k, SExp.ofNats t.deps]))
+    let shapes := subs.filterMap (fun s => (DelayedOps.shapeOf s).map (fun sh =>
+      SExp.list [.int s.nm, SExp.ofBool sh.legacy, encCallable sh.callable, .list (sh.args.map encTT), SExp.ofNats sh.deps]))
+    let skeys := subs.map (fun s => SExp.list [.int s.nm, encSK (DelayedOps.skey s)])
+    pure (.list [.int (Int.ofNat (DelayedOps.evalX codeSemX e)), SExp.ofOptNat (GraphMerge.evalG g fuel e.nm),
+      .list entries, .list shapes, .list skeys])
+  | _ => none
+
+def keyPre (k : String × Val) : SExp :=
+  match k.2 with
+  | .digest nf => .list [.str k.1, .str (pyRepr nf)]
+  | _ => .list [.str k.1, .sym "none"]
+
+/-- `(opkey op "funcname" "leafkey" (v…))` `(opkey attr "objkey" "attr")` `(opkey method "m" "objkey" (v…) (("k" v)…))`
+    ↦ `("prefix" "string fed to md5")`: the pure key of an operator node, of `d.attr`, of `d.m(…, pure=True)` -/
+def hOpKey : Handler := handler fun args =>
+  match args with
+  | [.sym "op", .str fn, .str lk, .list vs] => do
+    pure (keyPre (DelayedOps.opKey fn lk (← vs.mapM decVal)))
+  | [.sym "attr", .str o, .str a] => some (keyPre (DelayedOps.attrKey o a))
+  | [.sym "method", .str m, .str o, .list vs, .list kws] => do
+    let vs ← vs.mapM decVal
+    let kws ← kws.mapM (fun e => match e with
+      | .list [.str k, v] => do pure (k, (← decVal v))
+      | _ => none)
+    pure (keyPre (DelayedOps.methodKey m o vs kws))
+  | _ => none
+
+/-- `(callname name|none callpure|none leafpure|none cfg "funcname" "tok" "uuid")` ↦ the key `call_function` gives the
+    new Delayed -/
+def hCallName : Handler := handler fun args =>
+  match args with
+  | [dkn, cp, lp, cfg, .str fn, .str tok, .str uuid] => do
+    let dkn : Option String := match dkn with
+      | .str s => some s
+      | _ => none
+    let ob (e : SExp) : Option Bool := match e with
+      | .sym "true" => some true
+      | .sym "false" => some false
+      | _ => none
+    pure (.str (DelayedOps.callName dkn (DelayedOps.effPure (ob cp) (ob lp) (← cfg.toBool?)) fn tok uuid))
+  | _ => none
+
 def table : List (String × Handler) :=
-  [("pickleloop", hPickleLoop), ("ptokpre", hPTokPre), ("xtokpre", hXTokPre), ("scls", hSCls), ("dunpack", hDUnpack), ("dcall", hDCall), ("fusedparts", hFusedParts), ("tokprerec", hTokPreRec), ("getscheduler", hGetScheduler), ("delayedrun", hDelayedRun), ("mergeeval", hMergeEval), ("unpack", hUnpack), ("unpacktop", hUnpackTop), ("tune", hTune),
+  [("opsrun", hOpsRun), ("opkey", hOpKey), ("callname", hCallName), ("pickleloop", hPickleLoop), ("ptokpre", hPTokPre), ("xtokpre", hXTokPre), ("scls", hSCls), ("dunpack", hDUnpack), ("dcall", hDCall), ("fusedparts", hFusedParts), ("tokprerec", hTokPreRec), ("getscheduler", hGetScheduler), ("delayedrun", hDelayedRun), ("mergeeval", hMergeEval), ("unpack", hUnpack), ("unpacktop", hUnpackTop), ("tune", hTune),
    ("nodepre", hNodePre), ("nodeclass", hNodeClass), ("nodeeval", hNodeEval),
-   ("tokpre", hTokPre), ("tokprekw", hTokPreKw), ("pyrepr", hPyRepr), ("pystr", hPyStr), ("logical", hLogical)]
+   ("tokpre", hTokPre), ("tokprekw", hTokPreKw), ("pyrepr", hPyRepr), ("pystr", hPyStr), ("logical", hLogical)] ++ Dask.CtorNamesIO.handlers
 
 def main : IO Unit := runDriver table
